@@ -172,4 +172,105 @@ theorem C18_rerun_full_false : ¬ C18_rerun_full := by
       (stepOf f11Y f11F s0 1) [] 1 [] f11Task t1 (by decide +kernel) (by decide +kernel) rfl hs rfl (loop_one a1) a2 rfl a3
       (by decide) a4 (Or.inl a5))
 
+/-- **C18_producer_first.** If, among the collected tasks `ts`, `P` declares the directory pattern `π` as a product and
+`C` declares the same pattern (same `DirectoryNode` signature, `π.node`) as a dependency, then in every build the
+protocol of `P` (body, resolution of its products, teardown) has completed before `C` is handed out — and `C`'s
+dependency is only resolved after that, at `C`'s own setup (C18_resolve). -/
+theorem C18_producer_first (Y : YieldFn) (F : BodyFn) (ts : List PTask) (w : World) (s0 sm s' : Prov.Sess) (pre : List Nat)
+    (c : Nat) (post : List Nat) (h0 : initSess ts w = some s0) (h1 : loop Y F s0 pre = .ok sm)
+    (h2 : loop Y F sm (c :: post) = .ok s')
+    (P C : PTask) (hP : findTask ts P.id = some P) (hC : findTask ts c = some C) (hne : P.id ≠ c)
+    (π : Pat) (hπP : (⟨π, none⟩ : Slot) ∈ P.pprods) (hπC : (⟨π, none⟩ : Slot) ∈ C.pdeps) : P.id ∈ pre := by
+  have hi : LInv ts sm ([] ++ pre) := loop_inv pre s0 sm [] (initSess_inv h0) h1
+  simp only [List.nil_append] at hi
+  obtain ⟨hs, _, hl, hf, _⟩ := loop_cons h2
+  refine Classical.byContradiction fun hnot => ?_
+  have hg := hi.good hs
+  -- `c` has not been handed out before (it is still a node of the sorter)
+  have hcn : c ∉ pre := by
+    intro hc
+    obtain ⟨f, _, hr⟩ := hg.reach
+    have hav := mem_avail.1 (hl.2.1 (tv c) (by simp))
+    exact (reach_inv hr).disj (tv c) hav.1 (by rw [hi.done]; exact List.mem_map.2 ⟨c, hc, rfl⟩)
+  have hP' := hi.untouched P.id P hnot hP
+  have hC' := hi.untouched c C hcn hC
+  obtain ⟨m, hdag⟩ := hg.dag
+  have e1 : (tv P.id, nv π.node) ∈ sm.g.edges := by
+    refine (createDag_spec hdag P (findTask_mem hP')).2.2 π.node ?_
+    unfold PTask.allProds
+    exact List.mem_append.2 (Or.inr (List.mem_flatMap.2 ⟨_, hπP, by simp [Slot.nodes]⟩))
+  have e2 : (nv π.node, tv c) ∈ sm.g.edges := by
+    have := (createDag_spec hdag C (findTask_mem hC')).2.1 π.node (by
+      unfold PTask.allDeps
+      exact List.mem_append.2 (Or.inr (List.mem_flatMap.2 ⟨_, hπC, by simp [Slot.nodes]⟩)))
+    rwa [findTask_id hC'] at this
+  have hanc : tv P.id ∈ sm.g.anc (tv c) := anc_two_step e1 e2 (fun h => hne (tv_inj' h))
+  have : P.id ∈ taskAnc sm.g c := by
+    unfold taskAnc
+    refine List.mem_map.2 ⟨tv P.id, List.mem_filter.2 ⟨hanc, by unfold isTaskV tv; simp⟩, by unfold tv; omega⟩
+  exact hnot (pick_order hi hs hl hf _ this)
+
+/-- **C18_generated.** A build reaches state `sm` and hands out the generator `g` (not skipped, its body does not raise).
+Let `kids` be what its body defines, given the files matching its pattern dependencies at that moment. If the build
+then runs to its natural end (`s'`: nothing left to schedule, not stopped, no crash), every defined task `k` with a
+fresh id (a) was handed out in the *same* build, after the generator, (b) has a report, (c) had its function called at
+most once, and (d) was handed out only after all its own ancestors in the then-current graph had finished (C18_order).
+The next build treats `k` like any other task (it is collected again by the generator and goes through the same
+protocol: `C18_rerun_partial` / M6's incremental rules apply). -/
+theorem C18_generated (Y : YieldFn) (F : BodyFn) (ts : List PTask) (w : World) (s0 sm s' : Prov.Sess) (pre : List Nat)
+    (g : Nat) (post : List Nat) (h0 : initSess ts w = some s0) (h1 : loop Y F s0 pre = .ok sm)
+    (h2 : loop Y F sm (g :: post) = .ok s')
+    (G : PTask) (hG : findTask sm.tasks g = some G) (hgen : G.gen = true) (hnf : G.fails = false) (hfm : g ∉ sm.failMarks)
+    (hend : s'.stop = false ∧ s'.crashed = false ∧ s'.so.isActive = false)
+    (k : PTask) (hk : k ∈ Y g (G.pdeps.map (fun sl => sl.res.getD (sl.pat.glob sm.w.fs))))
+    (hfresh : findTask sm.tasks k.id = none) :
+    k.id ∈ post ∧ (∃ o, (k.id, o) ∈ s'.reports) ∧ s'.log.count k.id ≤ 1 := by
+  have hi : LInv ts sm ([] ++ pre) := loop_inv pre s0 sm [] (initSess_inv h0) h1
+  simp only [List.nil_append] at hi
+  obtain ⟨_, _, _, _, h5⟩ := loop_cons h2
+  have hall : loop Y F s0 (pre ++ g :: post) = .ok s' := by
+    -- re-assemble the whole pick list
+    have : ∀ (p : List Nat) (a b : Prov.Sess), loop Y F a p = .ok b → loop Y F b (g :: post) = .ok s' →
+        loop Y F a (p ++ g :: post) = .ok s' := by
+      intro p
+      induction p with
+      | nil => intro a b hab hb; simp only [loop, Except.ok.injEq] at hab; subst hab; exact hb
+      | cons x xs ih =>
+        intro a b hab hb
+        obtain ⟨c1, c2, c3, c4, c5⟩ := loop_cons hab
+        have hrec := ih _ b c5 hb
+        show loop Y F a (x :: (xs ++ g :: post)) = .ok s'
+        unfold loop
+        have hl : legalBatchB a.so 1 [tv x] = true := (legalBatchB_iff _ _ _).2 c3
+        have hact : a.so.isActive = true := by
+          have := (mem_avail.1 (c3.2.1 (tv x) (by simp))).1
+          unfold isActive
+          cases hn : a.so.nodes with
+          | nil => rw [hn] at this; cases this
+          | cons a as => rfl
+        rw [if_neg (by simp [c1, c2, hact]), if_neg (by simp [hl])]
+        cases hf : findTask a.tasks x with
+        | none => rw [hf] at c4; cases c4
+        | some y => exact hrec
+    exact this pre s0 sm h1 h2
+  have hi' : LInv ts s' ([] ++ (pre ++ g :: post)) := loop_inv _ s0 s' [] (initSess_inv h0) hall
+  simp only [List.nil_append] at hi'
+  -- the defined task is in `session.tasks` after the generator's protocol, and stays known
+  have hkin : k ∈ (stepOf Y F sm g).tasks := by
+    show k ∈ (protocol Y F { sm with so := sm.so.take [tv g] } g).tasks
+    refine protocol_gen_tasks Y F { sm with so := sm.so.take [tv g] } g G hG hgen hnf hfm k ?_
+    rw [received_resolvedDeps]; exact hk
+  have hknown : (findTask s'.tasks k.id).isSome := (loop_mono post _ s' h5).2 _ (findTask_isSome_of_mem hkin)
+  have hdone : k.id ∈ pre ++ g :: post := complete_all_done hi' hend.1 hend.2.2 _ hknown
+  have hnpre : k.id ∉ pre := fun h => by
+    have := hi.known _ h; rw [hfresh] at this; cases this
+  have hng : k.id ≠ g := fun h => by rw [h, hG] at hfresh; cases hfresh
+  have hpost : k.id ∈ post := by
+    rcases List.mem_append.1 hdone with h | h
+    · exact absurd h hnpre
+    · rcases List.mem_cons.1 h with h | h
+      · exact absurd h hng
+      · exact h
+  exact ⟨hpost, loop_reports _ s0 s' hall hend.2.1 _ hdone, (C18_gen_once Y F ts w s0 s' _ h0 hall k.id).2⟩
+
 end Pytask
